@@ -1,6 +1,7 @@
 """C11 — generated Python code computes exactly what the expression means."""
 import ast
 import math
+import signal
 
 import mpmath
 
@@ -121,6 +122,24 @@ class Undefined(Exception):
     pass
 
 
+class TooSlow(BaseException):
+    pass
+
+
+def limited(seconds, f, *args):
+    """run f(*args) under a repeating timer (SymPy's evaluation and big-number arithmetic can be unbounded, and SymPy
+    has bare `except:` clauses that may swallow a single alarm)"""
+    def on_alarm(signum, frame):
+        raise TooSlow()
+    old = signal.signal(signal.SIGALRM, on_alarm)
+    signal.setitimer(signal.ITIMER_REAL, seconds, 0.2)
+    try:
+        return f(*args)
+    finally:
+        signal.setitimer(signal.ITIMER_REAL, 0)
+        signal.signal(signal.SIGALRM, old)
+
+
 class Ref:
     def __init__(self, env):
         self.env, self.clean, self.big, self.acot0 = env, True, M.mpf(1), False
@@ -135,7 +154,9 @@ class Ref:
         else:
             v = M.mpc(M.re(v), 0)
         self.big = max(self.big, abs(v))
-        if abs(v) > 1e60 or 0 < abs(v) < 1e-60:
+        if 0 < abs(v) < 1e-9:
+            raise Undefined('ill-conditioned: an intermediate value is zero up to rounding')
+        if abs(v) > 1e60:
             self.clean = False
         return v
 
@@ -180,6 +201,8 @@ class Ref:
                 if M.re(e) <= 0:
                     raise Undefined('0**nonpositive')
                 return self.note(M.mpc(0))
+            if abs(e) * max(1, abs(M.log(abs(b)))) > 400:
+                raise Undefined('huge power')
             if M.im(b) == 0 and M.re(b) < 0 and not M.isint(M.re(e)):
                 self.clean = False          # Python: complex result or math domain error, both acceptable
             return self.note(M.power(b, e))
@@ -194,6 +217,8 @@ class Ref:
                     raise Undefined('complex ' + name)
                 if name == 'acot' and args[0] == 0:
                     self.acot0 = True
+                if name in ('factorial', 'exp', 'expm1', 'sinh', 'cosh') and abs(args[0]) > 150:
+                    raise Undefined('huge')
                 if name == 'factorial' and not (M.isint(M.re(args[0])) and M.re(args[0]) >= 0):
                     self.clean = False      # math.factorial is defined on non-negative integers only
                 return self.note(M.mpc(FN1[name](*args)))
@@ -230,6 +255,13 @@ class Ref:
 
 # ------------------------------------------------------------------------------------------------ implementation
 def impl(case):
+    try:
+        return limited(5, impl_, case)
+    except TooSlow:
+        return {'built': None, 'why': 'timeout'}
+
+
+def impl_(case):
     import sympy as sp
     from cellmlmanip.printer import Printer
     try:
@@ -271,6 +303,13 @@ ALLOWED_NODES = (ast.Expression, ast.BinOp, ast.UnaryOp, ast.BoolOp, ast.Compare
 def oracle(case, obs):
     if obs.get('built') is None:
         return []
+    try:
+        return limited(10, oracle_, case, obs)
+    except TooSlow:
+        return []
+
+
+def oracle_(case, obs):
     t, out = obs['built'], obs['out']
     fails = []
     # what reaches the _print_* methods is the tree after doprint's secondary-trig rewriting (SymPy re-evaluates the
@@ -376,6 +415,8 @@ def degenerate(t):
     """SymPy itself produced a non-finite or non-real constant, or an empty Piecewise, while building the tree"""
     return any(s[0] in ('Other', 'NaN') or s == ['Piecewise'] or (s[0] == 'Rel' and not has_symbol(s))
                or (s[0] == 'Pow' and s[1] == ['Int', 0])
+               or (s[0] == 'Pow' and s[1][0] in ('Int', 'Rat', 'Float') and s[2][0] in ('Rat', 'Float')
+                   and (s[1][1] < 0 if s[1][0] != 'Float' else s[1][2] == 'neg'))
                for s in walk_all(t))
 
 
